@@ -79,6 +79,8 @@ def default_execute(scn, ctx, timeout=10.0, digests=False):
             o["rows"] = lib.split_list(r["stdout"], run.get("ncols", 1))
             if run.get("chars"):
                 o["rows"] = [[list(c) for c in row] for row in o["rows"]]
+        elif fmt == "chars":
+            o["chars"] = list(r["stdout"].decode("utf-8", "replace"))
         elif fmt == "bytes":
             o["bytes"] = list(r["stdout"])
         elif fmt == "text":
@@ -88,6 +90,8 @@ def default_execute(scn, ctx, timeout=10.0, digests=False):
     rec = dict(scn)
     rec["snapshot"] = snap
     rec["root"] = os.path.realpath(w.paths[0])
+    rec["ctl"] = [chr(i) for i in range(1, 32)]      # characters TLA+ source cannot spell
+    rec["nul"] = "\0"
     rec["obs"] = obs
     return rec
 
